@@ -21,8 +21,8 @@ META["C04"] = {
 }
 
 META["C19"] = {
-    "text": "Bounded symbolic model checking of the real CheckHardForks and its SQL (LowestSynced/HighestSynced, FetchMin/MaxSyncedVersion, back-fill inserts, SelectSynced) over databases built through the real InsertSynced + commit: the solver decides 'refused <=> some block at/above a fork was synced by too old (or untracked) a build, or by a newer build than the one starting' for every assignment of per-height build versions, fork heights, fork minimum versions and current version within the bounds, including legacy prefixes and intermediate restarts.",
-    "note": "miniature chain (S<=5 quick, <=7 thorough), 2 symbolic forks; json round trip of the sync record stubbed; shipped mainnet table not instantiated; D14 found by this check and repaired (fix: e5e114c)",
+    "text": "Bounded symbolic model checking of the real CheckHardForks and its SQL (LowestSynced/HighestSynced, FetchMin/MaxSyncedVersion, back-fill inserts, SelectSynced) over databases built through the real InsertSynced + commit: the solver decides 'refused <=> some block at/above a fork was synced by too old (or untracked) a build, or by a newer build than the one starting' for every assignment of per-height build versions, fork heights, fork minimum versions and current version within the bounds, including legacy prefixes and intermediate restarts. The same histories are also run with every start of a build going through NewPegnetd's own body (regenerated from the current source), intermediate starts with or without --no-hf, the final one regular: refused <=> bad history.",
+    "note": "miniature chain (S<=5 quick, <=7 thorough; through the start-up path S<=3 / <=5), 2 symbolic forks; json round trip of the sync record stubbed; shipped mainnet table not instantiated; D14 found by this check and repaired (fix: e5e114c)",
     "design_ref": "DESIGN.md §7 C19",
 }
 
@@ -84,7 +84,7 @@ META["C09"] = {
 
 META["C20"] = {
     "text": "Bounded symbolic model checking of (a) the real FactoidToFactoshi with strconv.Atoi/ParseUint interpreted from their SSA over decimal strings whose every digit is a solver variable: an accepted amount equals the exact decimal value x 1e8 (as a mathematical integer), more than 8 decimals are rejected, nothing is silently altered; (c) the real UnmarshalJSON methods of Transaction, TransactionBatch and AddressAmountTuple accept exactly the objects made of their expected members, once each; (b) the real Transaction.Validate / TransactionBatch.ValidData on arbitrary decoded batches: accepted <=> version 1, >=1 transaction, one non-reserved input address, exactly one of transfers/conversion, transfers sum to the input without wrap, conversion differs from the input type. Found D13 (wrapping amount), repaired by a fix: commit.",
-    "note": "0..20 integer and 0..9 fraction digits; <=2 transactions x <=2 transfers; the three regular expressions are per-pattern models; JSON: the object level of the three length-checked decoders is decided (which member sets, incl. duplicates, unknown members, empty/null transfers, are accepted: the real UnmarshalJSON methods run over an object-level document model, natively over real bytes); NOT claimed (not-applicable sub-claim): everything below the object level - whitespace, escapes, number syntax, TypedAddressAmountTuple's tagged field - and the marshal/unmarshal round trip",
+    "note": "0..20 integer and 0..9 fraction digits; <=2 transactions x <=2 transfers; the three regular expressions are per-pattern models; JSON: the object level of the three length-checked decoders is decided (which member sets, incl. duplicates, unknown members, empty/null transfers, are accepted: the real UnmarshalJSON methods run over an object-level document model, natively over real bytes); NOT claimed (not-applicable sub-claim): everything below the object level - whitespace, escapes, number syntax, TypedAddressAmountTuple's tagged field - and the marshal/unmarshal round trip beyond the transfer output tuple (that one is decided: encoding/json's tag-driven encoder at the object level, then the real AddressAmountTuple.UnmarshalJSON, for every amount incl. 0); ticker names: canonical spellings and near misses through the real PTicker.UnmarshalJSON",
     "design_ref": "DESIGN.md §7 C20",
 }
 
